@@ -152,7 +152,7 @@ def roundtrip(arr, fmt, extra, opt=None):
         return "Rejected", f"{type(e).__name__}: {e}"
 
 
-def rest_equal(arr, res):
+def rest_equal(arr, res, rtol=0.0):
     """Everything the bond model does not carry: coordinates of every model, element, box,
     optional annotations. Exact, except the box (CRYST-like cell parameters: 1e-3 relative)."""
     import biotite.structure as struc
@@ -162,7 +162,9 @@ def rest_equal(arr, res):
     if type(arr) is not type(res):
         return False, [f"type {type(res).__name__}"]
     if arr.coord.shape != res.coord.shape or not np.array_equal(arr.coord, res.coord):
-        if arr.coord.shape != res.coord.shape or not np.allclose(arr.coord, res.coord, rtol=0, atol=1e-3):
+        # compress() documents a RELATIVE float tolerance (default 1e-6): for the compressed form a
+        # coordinate of large magnitude may move by 1e-6 of its value (rtol given by the caller)
+        if arr.coord.shape != res.coord.shape or not np.allclose(arr.coord, res.coord, rtol=rtol, atol=1e-3):
             why.append("coord")
     if arr.element.tolist() != res.element.tolist():
         why.append("element")
@@ -398,7 +400,7 @@ def gen_struct(item):
         oc, res = roundtrip(arr, fmt, extra, opt=fields)
         ev = {"fmt": fmt, "A": A, "B": B if B is not None else [], "oc": oc, "has_bonds": B is not None}
         if oc == "ok":
-            req, why = rest_equal(arr, res)
+            req, why = rest_equal(arr, res, rtol=1e-6 if fmt == "cbcif" else 0.0)
             if fields != fields_before:
                 req, why = False, why + [f"get_structure changed the caller's extra_fields list to {fields}"]
             rB = bonds_of(res)
